@@ -1,6 +1,7 @@
 import GV.Basic.Hex
 import GV.Model.Utf8
 import GV.Spec.Utf8
+import GV.Model.StrLit
 
 namespace GV.Driver.C14
 open GV.Hex GV.Utf8
@@ -45,6 +46,16 @@ def handle : List String → String
     match n.toNat?, parseHex h with
     | some n, some s => let r := copyString n s; s!"{r.1} {toHex r.2}"
     | _, _ => "bad-op"
+  | ["encstr", h] =>              -- the literal text emitted for a Go string
+    match parseHex h with
+    | some s => toHex (GV.StrLit.encodeString s)
+    | none => "bad-op"
+  | ["jslit", h] =>               -- ECMAScript string value of a literal text
+    match parseHex h with
+    | some l => match GV.StrLit.jsStringValue l with
+      | some v => toHex v
+      | none => "reject"
+    | none => "bad-op"
   | _ => "bad-op"
 
 end GV.Driver.C14
